@@ -265,7 +265,7 @@ def _const_regex(node, env_regex: Dict[str, Tuple[str, int]], module_consts: Dic
         if node.id in env_regex:
             return env_regex[node.id]
         if node.id in module_consts:
-            return _const_regex(module_consts[node.id], env_regex, {})
+            return _const_regex(module_consts[node.id], env_regex, {k: v for k, v in module_consts.items() if k != node.id})
         return None
     if (
         isinstance(node, ast.Call)
@@ -289,7 +289,7 @@ def _const_str(node, module_consts) -> Optional[str]:
     if isinstance(node, ast.Constant) and isinstance(node.value, str):
         return node.value
     if isinstance(node, ast.Name) and node.id in module_consts:
-        return _const_str(module_consts[node.id], {})
+        return _const_str(module_consts[node.id], {k: v for k, v in module_consts.items() if k != node.id})
     if isinstance(node, ast.JoinedStr):
         out = ''
         for v in node.values:
@@ -501,3 +501,91 @@ def model_string(model, var) -> Optional[str]:
 def z3_unescape(s: str) -> str:
     """z3 prints non-printable characters as \\u{hex}."""
     return re.sub(r'\\u\{([0-9a-fA-F]+)\}', lambda m: chr(int(m.group(1), 16)), s)
+
+
+# --------------------------------------------------------------------------------------------
+# regex structure helpers (capture groups)
+
+
+def parse_pattern(pattern: str):
+    return sre_parse.parse(pattern, 0)
+
+
+def find_group(tree, gid):
+    """the sub-pattern of capture group `gid` (searching nested constructs)"""
+    for op, av in tree:
+        if op is sre_c.SUBPATTERN:
+            group, _, _, p = av
+            if group == gid:
+                return p
+            r = find_group(p, gid)
+            if r is not None:
+                return r
+        elif op in (sre_c.MAX_REPEAT, sre_c.MIN_REPEAT):
+            r = find_group(av[2], gid)
+            if r is not None:
+                return r
+        elif op is sre_c.BRANCH:
+            for p in av[1]:
+                r = find_group(p, gid)
+                if r is not None:
+                    return r
+    return None
+
+
+def finite_language(sub, limit=200):
+    """all strings of a sub-pattern whose language is finite (literals, small sets, optional parts)"""
+    out = ['']
+    for op, av in sub:
+        if op is sre_c.LITERAL:
+            alts = [chr(av)]
+        elif op is sre_c.IN:
+            rs = _in_to_ranges(av)
+            if sum(hi - lo + 1 for lo, hi in rs) > 64:
+                raise Undecided('character set too large for a finite language')
+            alts = [chr(c) for lo, hi in rs for c in range(lo, hi + 1)]
+        elif op is sre_c.SUBPATTERN:
+            alts = finite_language(av[3], limit)
+        elif op is sre_c.BRANCH:
+            alts = [s for p in av[1] for s in finite_language(p, limit)]
+        elif op in (sre_c.MAX_REPEAT, sre_c.MIN_REPEAT):
+            lo, hi, p = av
+            if hi is sre_c.MAXREPEAT or hi == sre_c.MAXREPEAT or hi > 4:
+                raise Undecided('unbounded repeat in a finite language')
+            inner = finite_language(p, limit)
+            alts = []
+            for n in range(lo, hi + 1):
+                cur = ['']
+                for _ in range(n):
+                    cur = [a + b for a in cur for b in inner]
+                alts.extend(cur)
+        else:
+            raise Undecided('construct %s in a finite language' % (op,))
+        out = [a + b for a in out for b in alts]
+        if len(out) > limit:
+            raise Undecided('finite language too large')
+    return sorted(set(out))
+
+
+def sub_language(sub):
+    return _sub_to_re(list(sub))
+
+
+def alphabet_ranges(sub):
+    """code points that can occur in strings of the sub-pattern (over-approximation by collecting all sets)"""
+    rs = []
+    for op, av in sub:
+        if op is sre_c.LITERAL:
+            rs.append((av, av))
+        elif op is sre_c.IN:
+            rs.extend(_in_to_ranges(av))
+        elif op is sre_c.SUBPATTERN:
+            rs.extend(alphabet_ranges(av[3]))
+        elif op is sre_c.BRANCH:
+            for p in av[1]:
+                rs.extend(alphabet_ranges(p))
+        elif op in (sre_c.MAX_REPEAT, sre_c.MIN_REPEAT):
+            rs.extend(alphabet_ranges(av[2]))
+        else:
+            raise Undecided('construct %s in alphabet computation' % (op,))
+    return _union_ranges(rs)
